@@ -136,6 +136,18 @@ def alphabet(tier):
     for tag, raw in (("notjson", "{nope"), ("array", "[1, 2]"), ("string", "\"hello\""), ("null", "null"), ("number", "5")):
         c("create-body-" + tag, "CreateStateMachine", None, "any4xx", raw=raw)
         c("start-body-" + tag, "StartExecution", None, "any4xx", raw=raw)
+    # a request without any of its parameters, for every action that needs one
+    for act in ("CreateStateMachine", "UpdateStateMachine", "StartExecution", "StartSyncExecution", "DescribeStateMachine", "DeleteStateMachine", "DescribeExecution",
+                "DescribeStateMachineForExecution", "ListExecutions", "GetExecutionHistory", "SendTaskSuccess", "SendTaskFailure"):
+        c("noparams-" + act, act, {}, VALIDATION | {"InvalidToken", "InvalidOutput", "StateMachineDoesNotExist", "ExecutionDoesNotExist"})
+    # StartSyncExecution requests that are refused at once (the accepted ones block until the execution ends: C11's subject)
+    c("sync-badarn", "StartSyncExecution", {"stateMachineArn": "x", "name": "s1"}, {"InvalidArn"})
+    c("sync-badname", "StartSyncExecution", {"stateMachineArn": sm("mb"), "name": "a b"}, {"InvalidName"})
+    c("sync-badinput", "StartSyncExecution", {"stateMachineArn": sm("mb"), "name": "s1", "input": "{nope"}, {"InvalidExecutionInput"})
+    c("sync-intinput", "StartSyncExecution", {"stateMachineArn": sm("mb"), "name": "s1", "input": 5}, {"InvalidExecutionInput"} | VALIDATION)
+    c("sync-ghost", "StartSyncExecution", {"stateMachineArn": sm("ghost"), "name": "s1"}, {"StateMachineDoesNotExist"})
+    c("sync-standard-ma", "StartSyncExecution", {"stateMachineArn": sm("ma"), "name": "s1"}, {"StateMachineTypeNotSupported"})
+    c("histexec-badarn", "GetExecutionHistory", {"executionArn": "x"}, {"InvalidArn"})
     # bodies that are not even text / not complete, for every kind of action (the body is decoded before the action is looked at)
     for act in ("CreateStateMachine", "UpdateStateMachine", "StartExecution", "DescribeStateMachine", "ListStateMachines", "DeleteStateMachine",
                 "DescribeExecution", "ListExecutions", "StopExecution", "GetExecutionHistory", "SendTaskSuccess", "SendTaskFailure", "SendTaskHeartbeat"):
@@ -363,7 +375,7 @@ def bfs(tier, blocking=False, shared_only=False, strict=False):
         calls = [c for c in calls if c["tag"] in STRICT_TAGS]
     if blocking:
         # the blocking front end predates loggingConfiguration: that parameter is not part of what the two front ends share
-        calls = [c for c in calls if "log" not in c["tag"]]
+        calls = [c for c in calls if "log" not in c["tag"] and c["action"] not in ("StartSyncExecution", "SendTaskSuccess", "SendTaskFailure", "SendTaskHeartbeat")]      # (nor the synchronous start and the callbacks)
         for c in calls:
             if isinstance(c["params"], dict) and "loggingConfiguration" in c["params"]:
                 c["params"] = {k: v for k, v in c["params"].items() if k != "loggingConfiguration"}
